@@ -221,6 +221,9 @@ func newSysWorld(c *Ctx, wl *sysWorkload, label string, plan *sysFaultPlan, emit
 	jctx := jobcontroller.NewContextWithRecorder(w.ctx, rec)
 	jctx.VerifSetQueue(jobQ)
 	jobcontroller.NewInformerWorker(jctx)
+	// A handler that joins an informer is notified of the objects that already exist with add
+	// events (client-go); the JobConfig handlers get theirs queued on registration.
+	w.ctx.Sim().JobConfigs().ReplayOnRegister = true
 	// jobconfig controller: JobConfigs handler 0, Jobs handler 3
 	jccQ := mk("jcc")
 	cctx2 := jobconfigcontroller.NewContextWithRecorder(w.ctx, rec)
@@ -233,6 +236,14 @@ func newSysWorld(c *Ctx, wl *sysWorkload, label string, plan *sysFaultPlan, emit
 	croncontroller.NewInformerWorker(w.cronCtx, croncontroller.NewUpdateHandler(w.cronCtx)).Init()
 	w.cronWorker = croncontroller.NewCronWorker(w.cronCtx, &sysEnqueue{q: cronQ})
 	_ = w.cronWorker.Init()
+	// the typical production order: the cron handler runs the add notifications of the existing
+	// JobConfigs right after the schedule was initialised (F24); the JobConfig controller's
+	// handler runs its own as well
+	for h := 0; h < w.ctx.Sim().JobConfigs().NumHandlers(); h++ {
+		for w.ctx.Sim().JobConfigs().NotifyNext(h) {
+			c.Count("sys.boot.initial-add")
+		}
+	}
 	crRec := &crRecorder{}
 	cronRec := croncontroller.NewReconciler(w.cronCtx,
 		croncontroller.NewExecutionControl("cron", w.ctx.Clientsets().Furiko().ExecutionV1alpha1(), crRec), crRec, store, nil)
